@@ -239,7 +239,10 @@ deriving DecidableEq, Repr
 def resolve (rel base : P) : Resolved := ⟨rel, (mkPath rel rel base).absolute, base⟩
 
 /-- directory a config file spelled `ref` stands in, seen from directory `base`
-(`os.path.dirname(Path(ref).absolute)`) -/
+(`os.path.dirname(Path(ref).absolute)`): the directory the file is NAMED in.
+The rule is lexical — `.absolute` is never passed through `realpath` — so it
+also holds for a config file that is a symbolic link to a file elsewhere;
+only the DIRECTORIES on the way are assumed not to be symlinks (`normAbs`). -/
 def cfgDir (base ref : P) : P := dirname (mkPath ref ref base).absolute
 
 /-- directory entered for a `Path` object: `path.absolute` when the mode has `d`,
